@@ -24,6 +24,7 @@ import (
 	"github.com/aergoio/aergo/v2/p2p/p2putil"
 	"github.com/aergoio/aergo/v2/types"
 	"github.com/aergoio/aergo/v2/zz_verif/vh"
+	"github.com/rs/zerolog"
 )
 
 // scriptConn: the bytes the remote peer sends (all of them, then EOF) and what the node wrote.
@@ -163,6 +164,9 @@ func parseFrames(b []byte) (subs []p2pcommon.SubProtocol, bodies [][]byte, clean
 func wireHandshake(run *vh.Run) {
 	rng := run.Rng
 	setMax(types.MaxMessageSize())
+	lvl := zerolog.GlobalLevel()
+	zerolog.SetGlobalLevel(zerolog.Disabled) // the chain service logs through the global logger
+	defer zerolog.SetGlobalLevel(lvl)
 	p2pkey.VerifC08SetNodeSID("c18") // NodeVersion() needs an initialised node info
 	defer p2pkey.VerifC08SetNodeSID("")
 	bps := []bpKey{newBP(rng), newBP(rng), newBP(rng)}
